@@ -29,6 +29,7 @@ func c01Gen(rt *rapid.T) c01Case {
 		RowCounts:  []int{1, 1, 1, 2, 3, 4, 5, 8, 9, 10, 17, 18},
 		Small:      rapid.Bool().Draw(rt, "small"),
 		FlushFlags: true,
+		ReUse:      true,
 	}
 	switch rapid.IntRange(0, 9).Draw(rt, "profile") {
 	case 0: // many tables: catalog splits
@@ -134,6 +135,13 @@ func c01Run(c c01Case, st *vlib.Stats) string {
 			if err := eng.Flush(); err != nil {
 				return fmt.Sprintf("flush after statement %d failed: %v", i, err)
 			}
+		}
+		if s.Kind == "use" {
+			// the database was selected again: everything must still be there
+			if msg := CompareAll(eng, m, tr); msg != "" {
+				return fmt.Sprintf("after statement %d (%s): %s", i, s, msg)
+			}
+			continue
 		}
 		if (i+1)%every == 0 {
 			// cheap while tables are small; otherwise only the touched table
